@@ -1,6 +1,7 @@
 import Aqv.Base.Proto
 import Aqv.Base.Keccak
 import Aqv.Model.TxSign
+import Aqv.Model.TxApply
 open Aqv Aqv.Proto Aqv.TxSign
 
 /-!
@@ -16,6 +17,8 @@ open Aqv Aqv.Proto Aqv.TxSign
     life <tx9> <op;op;...> <recO>                   -> observations joined by |  (ops: h, z, s=<signer>, w=<signer>,<r>,<s>,<rid>)
     prot <v>                                        -> <0|1> <chainId>
     mk <homesteadBlock|-> <eip155Block|-> <chainId> <number|->   -> F | H | E:<chainId>
+    apply <homesteadBlock|-> <eip155Block|-> <chainId> <number> <tx9> <recO>   -> ok <addr> | err <class>
+        (core.ApplyTransaction's verdict / debited account at that height, whatever was applied before: applySender)
   secp256k1 is instantiated with the values supplied by the harness (recO: hash:r:s:rid=addr|err, signO: hash=r:s:rid);
   Keccak-256 and RLP are computed here.
 -/
@@ -205,6 +208,15 @@ def handle (l : String) : String :=
     (match hexNat c with
      | some c => verdict (renderSigner (makeSigner (opt hb) (opt eb) c (opt num))) go false "MakeSigner-differs-from-model"
      | none => "bad-op\tspec-ok")
+  | "apply" :: hb :: eb :: c :: num :: rest =>
+    let opt (s : String) : Option Nat := if s == "-" then none else hexNat s
+    (match hexNat c, hexNat num, parseTx (rest.take 9), rest.drop 9 with
+     | some c, some num, some t, [recO] =>
+       let E := mkEcdsa (parseRec recO) none []
+       let m := renderSender " " (applySender E kec ⟨⟨opt hb, opt eb, c⟩, num, t⟩)
+       -- the accept / reject verdict and the attributed account must be the model's; two rejections may differ in their reason
+       verdict m go (go.startsWith "err" && m.startsWith "err") "ApplyTransaction-sender-differs-from-MakeSigner-by-height-model"
+     | _, _, _, _ => "bad-op\tspec-ok")
   | _ => "bad-op\tspec-ok"
 
 def main : IO Unit := runLines handle
